@@ -184,23 +184,43 @@ static void run_scn(void *a_)
                 int b0 = W.k.qlen[0], b1 = W.k.qlen[1];
                 mx_conn_collect(&W.k);
                 for (int d = 0; d < 2; d++) if (W.k.qlen[d] > (d ? b1 : b0)) { if (flight == dropFlight && !dropped) { W.k.qoff[d] = W.k.qlen[d]; dropped = 1; vf_stat("dtls_flights_dropped", 1); } flight++; }
-                if (mx_conn_step(&W.k, 0) >= 0) continue;
+                int sd = mx_conn_step(&W.k, 0);
+                if (vf_verbose) fprintf(stderr, "  dtls iter=%d flight=%d dropped=%d step=%d  C:hs=%d done=%d dead=%d err=%d  S:hs=%d done=%d dead=%d err=%d  q0=%d/%d q1=%d/%d\n", iter, flight, dropped, sd,
+                    W.k.c.ssl->hsState, matrixSslHandshakeIsComplete(W.k.c.ssl), W.k.c.dead, W.k.c.ssl->err, W.k.s.ssl->hsState, matrixSslHandshakeIsComplete(W.k.s.ssl), W.k.s.dead, W.k.s.ssl->err, W.k.qoff[0], W.k.qlen[0], W.k.qoff[1], W.k.qlen[1]);
+                if (sd >= 0) continue;
                 int fired = 0;
                 for (int r = 0; r < 2 && !fired; r++) { mx_ep *e = r ? &W.k.s : &W.k.c;
                     if (matrixSslHandshakeIsComplete(e->ssl) || e->dead || (r == 1 && W.k.delivered[0] == 0)) continue;
                     unsigned char *ob; MX_ENTER(); int n = matrixDtlsGetOutdata(e->ssl, &ob); MX_LEAVE();
+                    if (vf_verbose) fprintf(stderr, "  timeout on %s -> %d bytes\n", e->name, n);
                     if (n > 0) { e->wantTake = 1; fired = 1; vf_stat("dtls_timeouts_that_resent", 1); } }
                 if (!fired) break;
             }
             mx_conn_run(&W.k, NULL, NULL, 100);
+        } else if (round == 1 && s->early) {
+            /* 0.5-RTT data: a server that accepted early data may write application data after its own Finished and before the
+               client's Finished arrives; those records, the NewSessionTicket and everything later share one traffic key */
+            int tried = 0;
+            for (int st = 0; st < 300; st++) {
+                int d = mx_conn_step(&W.k, 0); if (d < 0) break; seq_check(&W, "handshake");
+                mx_conn_collect(&W.k);
+                if (!tried && d == 0 && !matrixSslHandshakeIsComplete(W.k.s.ssl) && W.k.qlen[1] > W.k.qoff[1] && W.k.qoff[0] >= W.k.qlen[0]) {
+                    tried = 1; long before = n_aead_seals;
+                    for (int j = 0; j < 3; j++) wl_send(&W, &W.k.s, 64 + j, 700 + j);
+                    if (n_aead_seals > before) vf_stat("half_rtt_server_writes", n_aead_seals - before); else vf_stat("half_rtt_writes_refused", 1);
+                }
+            }
+            mx_conn_collect(&W.k); seq_check(&W, "handshake");
         } else wl_step_all(&W, 300, "handshake");
-        if (!mx_conn_established(&W.k)) { vf_incon("scenario %s %s did not establish (round %d)", mx_vername[s->ver], su->name, round); mx_conn_close(&W.k); return; }
+        if (!mx_conn_established(&W.k)) { vf_incon("scenario %s %s did not establish (round %d) [%s]", mx_vername[s->ver], su->name, round, cur_desc); mx_conn_close(&W.k); return; }
         vf_stat("connections", 1);
         /* send mix: sizes incl. empty and maximal, bursts without draining (forces output buffer growth / SSL_FULL retries), interleaved receives */
         static const int sz[] = { 1, 0, 15, 16, 17, 255, 1024, 16384, 1, 16383, 33 };
         int maxl = W.k.dtls ? 1000 : 16384;
         for (int i = 0; i < 11; i++) { int l = sz[i] > maxl ? maxl : sz[i]; wl_send(&W, &W.k.c, l, i); if (i % 3 == 2) wl_step_all(&W, 100, "data"); wl_send(&W, &W.k.s, l ? l : 2, 100 + i); if (i % 4 == 3) wl_step_all(&W, 100, "data"); }
         wl_step_all(&W, 200, "data");
+        /* a long stream: more than 256 records per direction under one key (the sequence number crosses a byte boundary) */
+        if (round == 0 || vf_thorough) { for (int i = 0; i < 300; i++) { wl_send(&W, &W.k.c, 1 + i % 3, 1000 + i); wl_send(&W, &W.k.s, 1 + i % 2, 2000 + i); if (i % 25 == 24) wl_step_all(&W, 200, "stream"); } wl_step_all(&W, 200, "stream"); vf_stat("long_streams", 1); }
         /* an error on one side: a corrupted record makes the receiver seal an alert; then closure alerts */
         if (round == 0 && !W.k.dtls) {
             wl_send(&W, &W.k.c, 40, 900); mx_conn_collect(&W.k);
